@@ -145,9 +145,79 @@ def loop : Nat → List Line → List (List Char × List Char) → List (List Ch
     let (logical, rest') := readLogical (l :: rest) []
     loop fuel rest' (match lineReq logical with | some p => acc ++ [p] | none => acc)
 
+/-! ### the same functions as written in Go, with indexing and slicing that can fail
+
+`readLine` slices `l[:len(l)-1]`; `ignorePythonSpecifier` takes `strings.SplitN(s, ";", 2)[0]`; `getLowestVersion`
+takes `t[0], t[1]` of `strings.SplitN(s, sep, 2)` behind `len(t) != 2`. In the `…Go` functions these are `goSliceI` /
+`goIndex`, whose `none` is a run-time panic; `parse` runs the Go-shaped loop. `readLogical`, `beforeSemi`,
+`getLowestVersion`, `lineReq`, `loop` above are the index-free reformulations used by the proofs (`…_eq` lemmas in
+Proofs/Parsers/GoShape.lean show they coincide, i.e. that no index or slice is ever out of range).
+(`hashOptionMatch[1]` of the --hash values and the `extraPaths` queue are not modelled: neither reaches the compared output.) -/
+
+def readLogicalGo : List Line → List Char → Option (List Char × List Line)
+  | [], b => some (b, [])
+  | l :: rest, b =>
+    let l' := rmComment l [] []
+    if hasEnvVar l' then some ([], rest)
+    else if l'.getLast? = some '\\' then
+      match goSliceI l' 0 ((l'.length : Int) - 1) with
+      | none => none
+      | some pre => readLogicalGo rest (b ++ pre)
+    else some (b ++ l', rest)
+
+/-- `strings.SplitN(s, sep, 2)` for a non-empty separator -/
+def splitSub2 (sep s : List Char) : List (List Char) :=
+  match cutSub sep s [] with
+  | some (a, b) => [a, b]
+  | none => [s]
+
+def getLowestVersionGo (s : List Char) : Option (List Char × List Char × List Char) :=
+  if unsupported s then some (nameFromRequirement s, [], [])
+  else
+    match ["===".toList, "==".toList, ">=".toList, "<=".toList, "~=".toList].find? (fun p => containsSub p s) with
+    | none => some (s, [], [])
+    | some sep =>
+      let t := splitSub2 sep s
+      if t.length ≠ 2 then some ([], [], []) else
+      match goIndex t 0, goIndex t 1 with
+      | some a, some b => some (a, b, sep)
+      | _, _ => none
+
+def lineReqGo (l0 : List Char) : Option (Option (List Char × List Char)) :=
+  let l1 := cutOptions l0 []
+  let requirement := trimSpace l1
+  let l2 := l1.filter (fun c => !(c = ' ' || c = '\t' || c = '\r'))
+  match goIndex (splitN ';' 2 l2) 0 with
+  | none => none
+  | some l3 =>
+    let l := rmExtras l3 none []
+    if l.isEmpty then some none
+    else if hasPrefix ['-'] l then some none
+    else
+      match getLowestVersionGo l with
+      | none => none
+      | some (name, version, comp) =>
+        if name.isEmpty then some none
+        else if version.isEmpty && !comp.isEmpty then some none
+        else if !validPkg name then some none
+        else if !hasPrefix name requirement then some none
+        else some (some (name, version))
+
+def loopGo : Nat → List Line → List (List Char × List Char) → Option (List (List Char × List Char))
+  | 0, _, acc => some acc
+  | _ + 1, [], acc => some acc
+  | fuel + 1, l :: rest, acc =>
+    match readLogicalGo (l :: rest) [] with
+    | none => none
+    | some (logical, rest') =>
+      match lineReqGo logical with
+      | none => none
+      | some r => loopGo fuel rest' (match r with | some p => acc ++ [p] | none => acc)
+
 def parse (bytes : List Char) : Outcome (List (List Char × List Char)) :=
   let (ls, tl) := scan bytes
-  let pkgs := loop (ls.length + 1) ls []
-  if tl then .err else .ok pkgs
+  match loopGo (ls.length + 1) ls [] with
+  | none => .panic
+  | some pkgs => if tl then .err else .ok pkgs
 
 end Scalibr.Parsers.Requirements
